@@ -440,6 +440,19 @@ pub fn render_goal(g: &Goal, out: &mut String) {
     }
 }
 
+/// Shape of a goal below its quantifiers — part of the root-cause discriminator of answer
+/// violations (a defect that only hits conjunctions must not absorb one that hits atoms).
+pub fn goal_shape(g: &Goal) -> &'static str {
+    match g {
+        Goal::Atom(_) => "atom",
+        Goal::Eq(..) => "eq",
+        Goal::And(_) => "conj",
+        Goal::Not(_) => "not",
+        Goal::If(..) => "if",
+        Goal::Exists(_, b) | Goal::Forall(_, _, b) => goal_shape(b),
+    }
+}
+
 pub fn goal_str(g: &Goal) -> String {
     let mut s = String::new();
     render_goal(g, &mut s);
